@@ -265,7 +265,14 @@ def run_line(state, sx):
         res = pyg_base.drange(us2dt(int(args[0])), us2dt(int(args[1])), dec_bump(args[2]))
         if not isinstance(res, list):
             raise proto.Unencodable('drange returned %r' % type(res))
-        return 'ok (L' + ''.join(' T:%d' % dt2us(t) for t in res) + ')'
+        out = 'ok (L' + ''.join(' T:%d' % dt2us(t) for t in res) + ')'
+        # the statement is about the VALUE of drange(t0, t1, bump): it may not depend on what the caller did to an earlier result.
+        # The returned list is edited in place and the same call is made again (seeded C10-u1: a memoised list handed to the caller)
+        from pv import alias
+        alias.scribble(res)
+        res2 = pyg_base.drange(us2dt(int(args[0])), us2dt(int(args[1])), dec_bump(args[2]))
+        out2 = 'ok (L' + ''.join(' T:%d' % dt2us(t) if isinstance(t, datetime.datetime) else ' S:%s' % proto.hexs(str(t)) for t in res2) + ')'
+        return out if out2 == out else 'again ' + out2[3:]
     if op == 'crun':
         from pyg_base._drange import Calendar
         cal = state.get('cal') or state.setdefault('cal', Calendar(None, t0=D(2000, 1, 1), t1=D(2001, 1, 1)))
@@ -282,6 +289,8 @@ def compare(case, i, line, ir, mr):
         return 'a bump that stands still must raise ValueError (no strictly monotone list starts at t0), got %s' % ir[:200]
     if proto.same_reply(ir, mr):
         return None
+    if ir.startswith('again '):
+        return 'after the list returned by drange was edited in place, the same call returns something else: %s (the statement gives %s)' % (ir[6:200], mr[:200])
     tag = case.get('tag', '')
     msg = 'implementation %s, model %s' % (ir[:300], mr[:300])
     if line.startswith('(drange bump'):
